@@ -153,7 +153,10 @@ def gen_cases(tier, seed, shard, nshards):
                  [" ORG $FFFE\n", " LDA #1\n", "L NOP\n", " NOP\n"], [" ORG $FFF0\n", " RMB 100\n", " NOP\n"], ["V EQU W+1\n", "W EQU 5\n", " LDA #V\n"],
                  ["L NOP\n", " LDA #L/0\n"], [" LDX #65535*2\n"], ["L NOP\n", " FDB L*70000\n"], ["L NOP\n", " LEAX L/0,PCR\n"],
                  ["Z EQU 0\n", "L NOP\n", " LDA [L/Z,PCR]\n"], [" ORG $F000\n", "L NOP\n", " LDX #L+$8000\n", " LEAX L*3,PCR\n", " FDB L+$7000\n"],
-                 ["Z EQU 0\n", " RMB Z\n", "E RMB 0\n", " FCB 1\n"], [" ORG $8000\n", "L NOP\n", " JMP L*2\n", " LDA L+L\n"]]
+                 ["Z EQU 0\n", " RMB Z\n", "E RMB 0\n", " FCB 1\n"], [" ORG $8000\n", "L NOP\n", " JMP L*2\n", " LDA L+L\n"],
+                 # text beyond ASCII: a string character that is no byte, a Latin-1 character (one byte), non-ASCII digits and names
+                 [" FCC \"\u0100\"\n"], [" NAM T\n", " FCC \"A\u0113\"\n", "N NOP\n"], [" FCC /caf\u00e9 \u20ac/\n"], [" FCC \"\U0001F600\"\n"],
+                 [" LDA #\u0661\u0662\n"], ["caf\u00e9 NOP\n", " JMP caf\u00e9\n"], [" FCB '\u0100\n"], [" LDA #'\u00e9\n"]]
     for k, t in enumerate(bad_texts):
         i += 1
         if i % nshards == shard:
